@@ -109,6 +109,9 @@ func (q *request) witness(leg string, idx int, t *coin.Transaction, errStr strin
 	if errStr != "" {
 		w["error"] = errStr
 	}
+	for k, v := range q.note {
+		w[k] = v
+	}
 	if t != nil {
 		ins := []string{}
 		for _, in := range t.In {
@@ -308,6 +311,12 @@ func pureCase(r *vf.Run, l *local, idx int) {
 }
 
 func runPure(r *vf.Run, l *local, leg string, idx int, q *request) {
+	runPureWith(r, l, leg, idx, q, q.params(), q.auxs())
+}
+
+// runPureWith calls transaction.Create with the caller's objects p / auxs (which a session shares
+// between requests) and judges the answer by q, the oracle's private statement of the request
+func runPureWith(r *vf.Run, l *local, leg string, idx int, q *request, p transaction.Params, auxs coin.AddressUxOuts) (ob observed, ok bool) {
 	l.evals++
 	l.count(leg + ".requests")
 	if !q.valid {
@@ -320,13 +329,19 @@ func runPure(r *vf.Run, l *local, leg string, idx int, q *request) {
 	if predicted {
 		l.count(leg + ".requests.change-would-equal-destination")
 	}
-	p := q.params()
-	auxs := q.auxs()
+	before := snapshotCall(p, auxs, nil)
 	var txn *coin.Transaction
 	var err error
 	panicked, msg, frame := vf.Recover(func() {
 		txn, _, err = transaction.Create(p, auxs, q.headTime)
 	})
+	outcome := "success"
+	if panicked {
+		outcome = "panic"
+	} else if err != nil {
+		outcome = "error"
+	}
+	checkUnchanged(r, l, leg, "transaction.Create", idx, q, before, p, auxs, nil, outcome)
 	if panicked {
 		viol(r, "panic", map[string]string{"leg": leg, "via": "transaction.Create", "frame": frame, "msg": msg, "recipe": q.recipe}, q.witness(leg, idx, nil, msg))
 		return
@@ -358,6 +373,7 @@ func runPure(r *vf.Run, l *local, leg string, idx int, q *request) {
 	ps, ob := checkSuccess(q, txn, false, burnFactor())
 	noteSuccess(l, leg, q, ob)
 	report(r, leg, "transaction.Create", idx, q, ps, ob, txn, "")
+	return ob, true
 }
 
 // directed cases: small hand-written requests, among them the minimal change == destination one
@@ -451,6 +467,17 @@ func main() {
 		l.merge(r)
 	}
 
+	// sessions: several requests by one caller who reuses its objects
+	nSess := envInt("C12_SESSIONS", r.Pick(4000, 200000))
+	const schunk = 100
+	vf.Parallel((nSess+schunk-1)/schunk, 16, func(c int) {
+		l := newLocal()
+		for i := c * schunk; i < (c+1)*schunk && i < nSess; i++ {
+			sessionCase(r, l, i)
+		}
+		l.merge(r)
+	})
+
 	// node leg
 	nNode := envInt("C12_NODE", r.Pick(304, 4000))
 	if nNode > 0 {
@@ -503,6 +530,17 @@ func floors(r *vf.Run) {
 	r.Floor("pure.fail."+failHours, 100)
 	r.Floor("pure.fail."+failNoFee, 20)
 	r.Floor("pure.fail."+failOther, 50)
+	r.Floor("session.sessions", 1000)
+	r.Floor("session.success", 3000)
+	r.Floor("session.success.share-fallback-to-1", 300)
+	r.Floor("session.with-change-after-fallback-on-same-share-factor", 300)
+	r.Floor("session.shared.share-factor-pointer-reused", 1000)
+	r.Floor("session.shared.change-pointer-reused", 300)
+	r.Floor("session.shared.destination-array-reused", 1000)
+	r.Floor("session.requests.same-params-again", 100)
+	r.Floor("session.caller-inputs-compared", 5000)
+	r.Floor("pure.caller-inputs-compared", 10000)
+	r.Floor("node.caller-inputs-compared", 100)
 	r.Floor("node.success", 100)
 	r.Floor("node.admitted", 100)
 	r.Floor("node.success.mode:manual", 20)
